@@ -57,7 +57,9 @@ def decompress():
 
             def on_next(i):
                 try:
-                    data = decompressor.decompress(i)
+                    # an empty chunk carries nothing to decompress (zstd refuses
+                    # any call once the end of the stream has been reached)
+                    data = decompressor.decompress(i) if len(i) > 0 else b''
                     observer.on_next(data)
                 except Exception as e:
                     observer.on_error(e)
